@@ -188,6 +188,53 @@ def evaluate(chk, cases, tag):
     return rows
 
 
+MIMPORTS = "From DJC Require Import Lib.Base Core.Syntax Core.Sem Core.Mech."
+
+
+def ensure_mech():
+    """Core/Mech.vo (mechanism model M of the CURRENT code, owned by C01M) must exist for the judgement inside known classes"""
+    with C._Lock(os.path.join(C.WORK, "coq.lock")):
+        C.ensure_makefile()
+        rc, out = C.sh("timeout 1500 make -j%d Core/Mech.vo" % C.NCPU, cwd=C.COQ)
+    if rc != 0:
+        raise C.HarnessError("cannot build Core/Mech.vo:\n" + out[-2000:])
+
+
+def judge_with_mechanism(progs_outcomes, tag):
+    """for every (program, implementation outcome): 'agrees' (M reproduces the implementation), 'unsupported' (the run leaves
+    the fragment M models: not judged) or 'differs'"""
+    res = [None] * len(progs_outcomes)
+    plain, rec = [], []
+    for i, (prog, o) in enumerate(progs_outcomes):
+        if o == ("err", "other:RecursionError"):
+            rec.append(i)
+        elif o[0] == "err" and o[1].startswith("other:"):
+            res[i] = "differs"          # hang / foreign exception: M never says that
+        elif o[0] == "ok" and len(o[1]) > 20000:
+            res[i] = "unsupported"      # no Coq literal of that length
+        else:
+            plain.append(i)
+    if plain:
+        terms = ["(%s, %s)" % (G.c_prog(progs_outcomes[i][0]), R.c_outcome(progs_outcomes[i][1])) for i in plain]
+        bad = C.coq_eval_cases("C03", tag + "m", MIMPORTS, "core_case", "check_mech_lenient", terms, shard=max(4, len(terms) // C.NCPU + 1))
+        for j, i in enumerate(plain):
+            res[i] = "agrees"
+        if bad:
+            uns = set(C.coq_eval_cases("C03", tag + "u", MIMPORTS, "core_case", "mech_supported", [terms[j] for j in bad], shard=max(4, len(bad) // C.NCPU + 1)))
+            for k, j in enumerate(bad):
+                res[plain[j]] = "unsupported" if k in uns else "differs"
+    if rec:
+        terms = [G.c_prog(progs_outcomes[i][0]) for i in rec]
+        bad = C.coq_eval_cases("C03", tag + "d", MIMPORTS, "prog", "check_mech_diverges", terms, shard=4)
+        for j, i in enumerate(rec):
+            res[i] = "agrees"
+        if bad:
+            uns = set(C.coq_eval_cases("C03", tag + "e", MIMPORTS, "prog", "mech_unsup_p", [terms[j] for j in bad], shard=4))
+            for k, j in enumerate(bad):
+                res[rec[j]] = "unsupported" if k in uns else "differs"
+    return res
+
+
 def trigger_of(prog):
     ks = U.classes(prog)
     return ks[0] if ks else "c03-%s-unclassified" % prog["mode"], ks
@@ -209,7 +256,8 @@ def describe(prog):
             "data": {n: cd["data"] for n, cd in prog["lib"]}, "ctx": prog["ctx"], "mode": prog["mode"]}
 
 
-def classify(chk, mode, rows, reported):
+def classify(chk, mode, rows, reported, tag="x"):
+    failing = []
     for kind, idx, prog, o, ok in rows:
         feats = G.features(prog)
         collision = kind not in ("fresh", "all-only", "ni-A", "probes", "corpus") and not kind.startswith("loops:") and not kind.endswith(":none")
@@ -218,24 +266,55 @@ def classify(chk, mode, rows, reported):
                   sample={"mode": mode, "collision": kind, "page": G.d_tpls(prog["page"]),
                           "components": {n: G.d_tpls(cd["tpl"]) for n, cd in prog["lib"]}, "output": o[1][:160]}
                   if nontriv and len(G.d_tpls(prog["page"])) < 220 else None)
-        if ok:
-            continue
-        trig, ks = trigger_of(prog)
+        if not ok:
+            failing.append((kind, prog, o) + trigger_of(prog))
+    # Inside a recorded class a deviation from the reference is accepted only if it is THE recorded deviation: the
+    # implementation must then equal the mechanism model M of the current code (Core/Mech.v), which reproduces the
+    # recorded deviations exactly. Anything else in the same input class is a different violation.
+    inclass = [i for i, f in enumerate(failing) if f[4]]
+    verdict = dict(zip(inclass, judge_with_mechanism([(failing[i][1], failing[i][2]) for i in inclass], tag))) if inclass else {}
+    for i, (kind, prog, o, trig, ks) in enumerate(failing):
+        v = verdict.get(i)
+        if v == "differs":
+            trig = "c03-deviation-beyond-known-" + trig[4:]
+            what = "output differs from the reference scoping AND from the mechanism model of the current code (%s variant): not the recorded deviation of class %s" % (kind, ks[0])
+        else:
+            what = "output differs from the reference scoping (%s variant); root-cause classes of the program: %s" % (kind, ks or "none")
+            if v == "unsupported":
+                chk.dist["in-known-class-not-judged-by-M(outside modelled fragment)"] += 1
+            elif v == "agrees":
+                chk.dist["in-known-class-equal-to-M"] += 1
         chk.dist["differs:" + trig] += 1
-        what = "output differs from the reference scoping (%s variant); root-cause classes of the program: %s" % (kind, ks or "none")
         if trig not in reported:
-            # first failure of this class in this run: minimise it for the replay
+            # first failure of this kind in this run: minimise it for the replay
             reported[trig] = True
-            small = shrink(prog, trig)
+            small = shrink(prog, trig) if v != "differs" else shrink_beyond(prog, ks[0])
             chk.fail(trig, what, {"program": small, "shrunk_from_variant": kind, "implementation": render(small),
-                                  "reference_python_port": PR.render_prog(small), "classes": ks, **describe(small)})
+                                  "reference_python_port": PR.render_prog(small), "classes": ks, "mechanism_model": v, **describe(small)})
         else:
             chk.fail(trig, what, {"program": prog, "implementation": o, "classes": ks, **describe(prog)})
+
+
+def shrink_beyond(prog, cls, budget=60):
+    """smaller program of the same class on which the implementation still differs from the reference AND from M"""
+    n = [0]
+
+    def still(q):
+        o = render(q)
+        if same_outcome(o, PR.render_prog(q)) or trigger_of(q)[0] != cls or n[0] >= budget:
+            return False
+        n[0] += 1
+        return judge_with_mechanism([(q, o)], "shr")[0] == "differs"
+    try:
+        return G.shrink_prog(prog, still, budget=600)
+    except Exception:
+        return prog
 
 
 def noninterference(chk, mode, bases, reported):
     """two-run oracle on the implementation: same program, unpassed values differ => identical output"""
     n = 0
+    failing = []
     for idx, p in bases:
         if _hangs[0] >= 8:
             break
@@ -245,29 +324,38 @@ def noninterference(chk, mode, bases, reported):
         n += 1
         chk.count(("ni", json.dumps(a, sort_keys=True)), "fill" in G.features(a) and "comp-nested" in G.features(a), kind="%s/ni-pair" % mode)
         if oa != ob:
-            trig, ks = trigger_of(a)
-            if not ks:
-                trig = "c03-%s-noninterference" % mode
-            chk.dist["ni-differs:" + trig] += 1
-            if trig in reported:
-                chk.fail(trig, "two-run non-interference fails", {"program": a, "classes": ks})
-                continue
-            reported[trig] = True
+            failing.append((a, b, oa, ob) + trigger_of(a))
+    # inside a recorded class: both runs must be exactly what the mechanism model of the current code says
+    inclass = [f for f in failing if f[5]]
+    verdicts = judge_with_mechanism([(f[0], f[2]) for f in inclass] + [(f[1], f[3]) for f in inclass], "ni" + mode[:3]) if inclass else []
+    beyond = {id(f) for k, f in enumerate(inclass) if "differs" in (verdicts[k], verdicts[len(inclass) + k])}
+    for f in failing:
+        a, b, oa, ob, base_trig, ks = f
+        trig = base_trig
+        if not ks:
+            trig = "c03-%s-noninterference" % mode
+        elif id(f) in beyond:
+            trig = "c03-deviation-beyond-known-" + trig[4:]
+        chk.dist["ni-differs:" + trig] += 1
+        if trig in reported:
+            chk.fail(trig, "two-run non-interference fails", {"program": a, "classes": ks})
+            continue
+        reported[trig] = True
 
-            def still(x):
-                if trigger_of(x)[0] != trig and ks:
-                    return False
-                y = json.loads(json.dumps(x).replace('"SA"', '"SB"').replace('"UA"', '"UB"'))
-                return render(x) != render(fix_prog(y))
-            try:
-                small = G.shrink_prog(a, still, budget=300)
-            except Exception:
-                small = a
-            sb = fix_prog(json.loads(json.dumps(small).replace('"SA"', '"SB"').replace('"UA"', '"UB"')))
-            chk.fail(trig, "two-run non-interference fails: two runs that differ only in values never passed (page variable zu_page, "
-                           "component data zs_<c>) give different output although every component is rendered isolated",
-                     {"program": small, "program_run_B": sb, "run_A": render(small), "run_B": render(sb),
-                      "classes": ks, **describe(small)})
+        def still(x, base_trig=base_trig, ks=ks):
+            if trigger_of(x)[0] != base_trig and ks:
+                return False
+            y = json.loads(json.dumps(x).replace('"SA"', '"SB"').replace('"UA"', '"UB"'))
+            return render(x) != render(fix_prog(y))
+        try:
+            small = G.shrink_prog(a, still, budget=300) if id(f) not in beyond else a
+        except Exception:
+            small = a
+        sb = fix_prog(json.loads(json.dumps(small).replace('"SA"', '"SB"').replace('"UA"', '"UB"')))
+        chk.fail(trig, "two-run non-interference fails: two runs that differ only in values never passed (page variable zu_page, "
+                       "component data zs_<c>) give different output although every component is rendered isolated",
+                 {"program": small, "program_run_B": sb, "run_A": render(small), "run_B": render(sb),
+                  "classes": ks, **describe(small)})
     return n
 
 
@@ -292,6 +380,7 @@ def run(tier, seed):
     R.outcome_of = _outcome_of_repeating     # this process only
     chk = C.Check("C03", tier, seed)
     chk.prove()
+    ensure_mech()
     _hangs[0] = 0
     n = 1500 if tier == "thorough" else 200
     cc = corpus_cases()
@@ -303,9 +392,9 @@ def run(tier, seed):
     fam = U.grid_programs(tier == "thorough") + U.loop_programs()
     for mode in ("isolated", "django"):
         rows = evaluate(chk, [c for c in cc if c[2]["mode"] == mode], "corpus" + mode[:3])
-        classify(chk, mode, rows, reported)
+        classify(chk, mode, rows, reported, "corpus" + mode[:3])
         rows = evaluate(chk, [(k, j, p) for j, (k, m, p) in enumerate(fam) if m == mode], "fam" + mode[:3])
-        classify(chk, mode, rows, reported)
+        classify(chk, mode, rows, reported, "fam" + mode[:3])
     # outside the calculus: nested loops and forloop.parentloop (expected output computed from the loop structure)
     for name, prog, expected, cls in U.parentloop_programs():
         rep = []
@@ -329,7 +418,7 @@ def run(tier, seed):
             # enclosing loop, fill content sees the inner component's data)
             cases += [("probes", i, U.ni_variant(p, "A")) for i, p in bases]
         rows = evaluate(chk, cases, mode[:3])
-        classify(chk, mode, rows, reported)
+        classify(chk, mode, rows, reported, mode[:3])
         nni += noninterference(chk, mode, bases, reported)
     chk.extra["noninterference_pairs"] = nni
     chk.extra["root_cause_classes"] = U.CLASS_TEXT
